@@ -195,6 +195,19 @@ pub fn main(args: &[String]) -> i32 {
             }
         }
     }
+    // the IHW accessor that governs the lane checks: active_lanes = bits 27:0 of the word
+    for i in 0..2000u32 {
+        let v: u32 = if i < 28 { 1 << i } else if i < 56 { 0x0FFF_FFFF & !(1 << (i - 28)) } else { rng.next() as u32 };
+        let mut w = [0u8; 10];
+        w[..4].copy_from_slice(&v.to_le_bytes());
+        w[9] = 0xE0;
+        let got = Ihw::load(&mut &w[..]).unwrap().active_lanes();
+        data_evals += 1;
+        if got != v & 0x0FFF_FFFF {
+            viol.push(format!("IHW [{}]: active_lanes() = {got:#X}, bits 27:0 of the word are {:#X}", hex(&w), v & 0x0FFF_FFFF));
+            break;
+        }
+    }
     let ok = viol.is_empty();
     println!(
         "{{\"ok\":{ok},\"status_word_evaluations\":{evals},\"structured\":{structured},\"reference_rejects\":{rejected},\"reference_accepts\":{accepted},\"data_word_evaluations\":{data_evals},\"data_word_reported\":{data_reported},\"violations\":[{}]}}",
